@@ -125,6 +125,11 @@ def ser_view(kind, obj):
         params = [list(p.components) for p in parse_msd(string=text)]
     except Exception as e:  # noqa
         return [[["<str() raised %s>" % type(e).__name__]]]
+    if kind in ("sm", "ssc") and getattr(obj, "charts", None):
+        # the simfile's own parameters are those before its charts' (SM: one NOTES parameter per chart;
+        # SSC: NOTEDATA + one per chart item)
+        nchart = sum(1 if kind == "sm" else 1 + len(c) for c in obj.charts)
+        params = params[:len(params) - nchart] if nchart <= len(params) else [["<fewer parameters than the charts need>"]]
     if kind == "smchart":
         params = [[c.strip() for c in p[:7]] + p[7:] for p in params]
     return [params]
@@ -138,6 +143,13 @@ def cmp_views(kind, obj, items, rng):
     """equality against (i) an object rebuilt from the same items, (ii) one with one value
     changed, (iii) for dictionaries, one with two keys swapped"""
     out = []
+    import copy
+
+    def rebuild(kind, items):              # noqa  (a twin with equal charts, so that only the mapping is compared)
+        o = make(kind, items)
+        if kind in ("sm", "ssc") and obj.charts:
+            o.charts.extend(copy.deepcopy(list(obj.charts)))
+        return o
     same = rebuild(kind, items)
     out.append({"other": items, "eq": bool(obj == same) and not bool(obj != same)})
     if items:
@@ -250,6 +262,20 @@ def gen_history(rng, kind, known, smfields, steps):
     aliases = [a for _, a in names if a]
     unrelated = ["X", "FOO", "NOTES3", "FREEZES", "ANIMATIONS", "NOTES2", "stops", "Title"]
     obj = make(kind)
+    if kind in ("sm", "ssc") and rng.random() < 0.4:
+        # a simfile that HAS charts (with and without timing data of their own): what is serialized for the
+        # simfile itself must still be exactly its mapping
+        from simfile.sm import SMChart
+        from simfile.ssc import SSCChart
+        for _ in range(rng.randint(1, 2)):
+            if kind == "sm":
+                obj.charts.append(SMChart.blank())
+            else:
+                c = SSCChart.blank()
+                for ck in rng.sample(["BPMS", "STOPS", "OFFSET", "DISPLAYBPM", "CHARTNAME", "WARPS", "LABELS"], rng.randint(0, 3)):
+                    c[ck] = rng.choice(["", "0.000=120.000", "1"])
+                c.move_to_end("NOTES")
+                obj.charts.append(c)
     init = project(obj)
     out = []
     aliased = [(n, a) for n, a in names if a]
